@@ -99,6 +99,12 @@ Theorem C01_strict_in_rev : forall p o, strict_in p (rev o) <-> strict_in p o.
 Proof. exact strict_in_rev. Qed.
 Print Assumptions C01_strict_in_rev.
 
+(* the degenerate closing edge (v0,v0) of a stored, closed outline changes nothing: the
+   specification of the closed list is that of the open outline's cyclic edge list *)
+Theorem C01_strict_in_reclose : forall p o, strict_in p (reclose o) <-> strict_in p o.
+Proof. exact strict_in_reclose. Qed.
+Print Assumptions C01_strict_in_reclose.
+
 Theorem C01_pip_rotation : forall w p h h' k o, west_ok w o -> w <= px p ->
   pip w p (norm_outline h (reclose (rot k o))) = pip w p (norm_outline h' (reclose o)).
 Proof. exact pip_rotation. Qed.
